@@ -327,6 +327,7 @@ def shard_run(arg):
 
 def run(tier, seed, work):
     res = vp.Result("C17", tier, seed, "exploration")
+    res.after_error_routes = ['builds_after_a_failed_build_in_the_same_process', 'fixtures_with_an_uncopyable_entry']      # routes added in round 12 (a handled failure followed by ordinary work): must have observed something
     n = 4000 if tier == "quick" else 90000
     for d in vp.pmap(shard_run, [(seed, s, work) for s in vp.split(range(n), vp.NCPU)]):
         res.merge(d)
@@ -334,6 +335,7 @@ def run(tier, seed, work):
                 "(string class of entrypoint, classes in command, classes in env values [dash, space, eq, quote, uni, empty, ctl], #ports, #mounts, #buildpacks, preprocessor used, absolute app dir) combinations")
     res.assumptions = ["docker run / docker exec are parsed non-interspersed (options end at IMAGE / CONTAINER), pack build interspersed; --buildpack is a comma-separated string slice, --env a string array",
                        "not generated because the target grammars give them meaning: '=' in env keys, ',' and '\"' in mount paths and buildpack references"]
+    res.required = list(getattr(res, "required", [])) + res.after_error_routes
     return res
 
 
